@@ -1,4 +1,5 @@
 import C2paModel.Lemmas.C16
+import C2paModel.Lemmas.C16Place
 /-
 C16 — Merkle proofs accept exactly the committed leaves.  Statement (properties.jsonl):
 
@@ -32,6 +33,14 @@ absent proof against a stored row above the leaves accepted the *inner node* `ro
 as the value of every leaf below it.  `pre_fix_none_arm_unsound` proves this of the model of the
 old function (`checkMerkleTreePre`); the harness replays the witness on the implementation
 (function level and through `BmffHash::verify_stream_hash`).
+
+Second defect, asset level (fixes/C16-merkle-location-bound-to-chunk.patch): the validators took
+the leaf index of a chunk from the `location` field of the chunk's `merkle` uuid box (outside
+every hash) without comparing it with the position of the chunk, so any sequence of committed
+chunks, each followed by its own box, verified (`pre_fix_every_rearrangement_accepted`,
+`pre_fix_placement_unsound`).  Repaired code: `accepted_mdats_chunks_are_committed`,
+`accepted_fragments_are_committed` (accepted ⇒ the chunk sequence is the committed leaf
+sequence), `moved_chunk_acceptance_yields_collision` (byte level), `honest_stream_accepted`.
 -/
 namespace C2pa.C16
 
@@ -345,6 +354,271 @@ theorem pre_fix_same_on_present_proofs [DecidableEq α] (comb : α → α → α
     (hashes : List α) (v : α) (loc : Nat) (p : List α) :
     checkMerkleTreePre comb count hashes v loc (some p)
       = checkMerkleTree comb count hashes v loc (some p) := rfl
+
+/-! ### the leaf index of a chunk is its position
+
+Asset level.  `verifies_iff_committed_on` is about one call `check_merkle_tree(value, location,
+proof)`; what the property needs of an asset is that the chunk standing at position `i` is the
+committed leaf `i`.  Both `location` and the proof are read from the chunk's `merkle` uuid box,
+which is outside every hash, so this holds only if the validator ties `location` to the position
+it is hashing.  Repaired code (fixes/C16-merkle-location-bound-to-chunk.patch): `chunksGo`. -/
+
+/-- The loop over the chunk positions, started at position `i`: every chunk it accepts is the
+committed leaf of its own position — whatever the boxes (locations, proofs) say. -/
+theorem chunksGo_sound [DecidableEq α] (comb : α → α → α) (D : α → Prop)
+    (hD : ∀ a b, D (comb a b)) (hinj : InjectiveOn2 D comb)
+    (leaves : List α) (hl : ∀ x ∈ leaves, D x) (d : Nat) :
+    ∀ (chunks : List α) (boxes : List (Box α)) (i : Nat), (∀ c ∈ chunks, D c) →
+      chunksGo comb leaves.length (rowAt comb leaves d) i chunks boxes = true →
+        ∀ k c, chunks[k]? = some c → leaves[i + k]? = some c
+  | [], _, _, _, _ => by simp
+  | _ :: _, [], _, _, h => by simp [chunksGo] at h
+  | c :: cs, b :: bs, i, hc, h => by
+    simp only [chunksGo, ne_eq, ite_not] at h
+    by_cases hloc : b.location = i
+    · simp only [hloc, if_true] at h
+      by_cases hchk : checkMerkleTree comb leaves.length (rowAt comb leaves d) c i b.hashes = true
+      · simp only [hchk, if_true] at h
+        have hhead := ((verifies_iff_committed_on comb D hD hinj leaves hl d i c
+          (hc c List.mem_cons_self) b.hashes).mp hchk).1
+        have htail := chunksGo_sound comb D hD hinj leaves hl d cs bs (i + 1)
+          (fun x hx => hc x (List.mem_cons_of_mem _ hx)) h
+        intro k c' hk
+        cases k with
+        | zero =>
+          simp only [List.getElem?_cons_zero, Option.some.injEq] at hk
+          subst hk
+          simpa using hhead
+        | succ k =>
+          simp only [List.getElem?_cons_succ] at hk
+          have := htail k c' hk
+          rwa [show i + 1 + k = i + (k + 1) by omega] at this
+      · simp [hchk] at h
+    · simp [hloc] at h
+
+/-- One mdat box with a group of exactly `count` boxes: accepted ⇒ the chunk sequence **is** the
+committed leaf sequence (no chunk altered, moved, repeated, dropped or added). -/
+theorem validateGroup_sound [DecidableEq α] (comb : α → α → α) (D : α → Prop)
+    (hD : ∀ a b, D (comb a b)) (hinj : InjectiveOn2 D comb)
+    (leaves : List α) (hl : ∀ x ∈ leaves, D x) (d : Nat) (m : Mdat α)
+    (hcount : m.count = leaves.length) (hrow : m.hashes = rowAt comb leaves d)
+    (hc : ∀ c ∈ m.chunks, D c) (group : List (Box α)) (hg : group.length = m.count)
+    (hacc : validateGroup comb m group = true) : m.chunks = leaves := by
+  simp only [validateGroup, ne_eq, ite_not] at hacc
+  by_cases hlen : m.chunks.length = group.length
+  · simp only [hlen, if_true, hcount, hrow] at hacc
+    have hs := chunksGo_sound comb D hD hinj leaves hl d m.chunks group 0 hc hacc
+    apply List.ext_getElem?
+    intro k
+    by_cases hk : k < m.chunks.length
+    · have := hs k m.chunks[k] (by simp [hk])
+      simp only [Nat.zero_add] at this
+      rw [this]; simp [hk]
+    · have h1 : m.chunks[k]? = none := by simp; omega
+      have h2 : leaves[k]? = none := by simp; omega
+      rw [h1, h2]
+  · simp [hlen] at hacc
+
+/-- **Asset level, mdat path with proof boxes (`validate_merkle_maps_mdat_boxes`).**  For any
+number of mdat boxes / MerkleMaps, any `merkle` uuid boxes (any locations, any proofs — absent,
+present, elements of any shape, any number of boxes): if the validator accepts, then for every
+MerkleMap whose stored row is a row of the tree over its committed leaves, the chunks of its mdat
+box are exactly the committed leaves, position by position.  Hypotheses are about inputs only:
+the chunk digests and leaves are well-formed digests, `comb` is collision free relative to
+them. -/
+theorem accepted_mdats_chunks_are_committed [DecidableEq α] (comb : α → α → α) (D : α → Prop)
+    (hD : ∀ a b, D (comb a b)) (hinj : InjectiveOn2 D comb)
+    (mdats : List (Mdat α)) (boxes : List (Box α))
+    (hacc : validateMdatsUuid comb mdats boxes = true)
+    (m : Mdat α) (hm : m ∈ mdats) (leaves : List α) (hl : ∀ x ∈ leaves, D x) (d : Nat)
+    (hcount : m.count = leaves.length) (hrow : m.hashes = rowAt comb leaves d)
+    (hc : ∀ c ∈ m.chunks, D c) : m.chunks = leaves := by
+  simp only [validateMdatsUuid] at hacc
+  split at hacc
+  · simp at hacc
+  · rename_i groups hsplit
+    by_cases hlen : mdats.length = groups.length
+    · simp only [hlen, ne_eq, not_true_eq_false, if_false, List.all_eq_true] at hacc
+      have hmm := hacc m hm
+      obtain ⟨g, hlook, hglen⟩ := splitBoxes_group mdats boxes groups hsplit hlen m hm
+      simp only [hlook] at hmm
+      exact validateGroup_sound comb D hD hinj leaves hl d m hcount hrow hc g hglen hmm
+    · simp [hlen] at hacc
+
+/-- The fragmented single-file branch: accepted ⇒ the fragments are the committed leaves in
+order. -/
+theorem accepted_fragments_are_committed [DecidableEq α] (comb : α → α → α) (D : α → Prop)
+    (hD : ∀ a b, D (comb a b)) (hinj : InjectiveOn2 D comb)
+    (leaves : List α) (hl : ∀ x ∈ leaves, D x) (d : Nat) (chunks : List α)
+    (hc : ∀ c ∈ chunks, D c) (boxes : List (Box α))
+    (hacc : validateFragments comb leaves.length (rowAt comb leaves d) chunks boxes = true) :
+    chunks = leaves := by
+  simp only [validateFragments, ne_eq, Bool.or_eq_true, decide_eq_true_eq] at hacc
+  by_cases hlen : chunks.length = leaves.length ∧ boxes.length = leaves.length
+  · have hno : ¬ (¬ chunks.length = leaves.length ∨ ¬ boxes.length = leaves.length) := by
+      intro h; rcases h with h | h
+      · exact h hlen.1
+      · exact h hlen.2
+    simp only [hno, if_false] at hacc
+    have hg : validateGroup comb ⟨0, leaves.length, rowAt comb leaves d, chunks⟩ boxes = true := by
+      simp only [validateGroup, ne_eq, ite_not]
+      rw [if_pos (by rw [hlen.1, hlen.2])]
+      exact hacc
+    exact validateGroup_sound comb D hD hinj leaves hl d
+      ⟨0, leaves.length, rowAt comb leaves d, chunks⟩ rfl rfl hc boxes hlen.2 hg
+  · have : ¬ chunks.length = leaves.length ∨ ¬ boxes.length = leaves.length := by
+      by_cases h1 : chunks.length = leaves.length
+      · exact Or.inr fun h2 => hlen ⟨h1, h2⟩
+      · exact Or.inl h1
+    simp [this] at hacc
+
+/-- **Byte level, no idealised hypothesis** (the form of `forged_acceptance_yields_collision`):
+nodes are byte strings, `comb a b = H (a ‖ b)`, `H` any function with `L`-byte outputs; chunk
+digests are outputs of the hash (`L` bytes).  If the validator accepts the stream then the
+chunks of every MerkleMap's mdat box are exactly its committed leaves — or two different byte
+strings with the same `H` exist. -/
+theorem moved_chunk_acceptance_yields_collision (H : List UInt8 → List UInt8) (L : Nat)
+    (hL : ∀ x, (H x).length = L) (mdats : List (Mdat (List UInt8)))
+    (boxes : List (Box (List UInt8)))
+    (hacc : validateMdatsUuid (concatHash H) mdats boxes = true)
+    (m : Mdat (List UInt8)) (hm : m ∈ mdats) (leaves : List (List UInt8))
+    (hl : ∀ x ∈ leaves, x.length = L) (d : Nat) (hcount : m.count = leaves.length)
+    (hrow : m.hashes = rowAt (concatHash H) leaves d) (hc : ∀ c ∈ m.chunks, c.length = L) :
+    m.chunks = leaves ∨ ∃ x y, x ≠ y ∧ H x = H y := by
+  by_cases hcol : ∃ x y, x ≠ y ∧ H x = H y
+  · exact Or.inr hcol
+  · have hH : ∀ x y, H x = H y → x = y := fun x y h =>
+      Classical.byContradiction fun hne => hcol ⟨x, y, hne, h⟩
+    exact Or.inl (accepted_mdats_chunks_are_committed (concatHash H) (fun x => x.length = L)
+      (fun a b => hL (a ++ b)) (concatHash_injectiveOn H L hH) mdats boxes hacc m hm leaves hl d
+      hcount hrow hc)
+
+/-! #### the honest stream is accepted -/
+
+theorem chunksGo_complete [DecidableEq α] (comb : α → α → α) (count : Nat) (hashes : List α) :
+    ∀ (chunks : List α) (boxes : List (Box α)) (i : Nat), chunks.length = boxes.length →
+      (∀ k c b, chunks[k]? = some c → boxes[k]? = some b →
+        b.location = i + k ∧ checkMerkleTree comb count hashes c (i + k) b.hashes = true) →
+      chunksGo comb count hashes i chunks boxes = true
+  | [], _, _, _, _ => by simp [chunksGo]
+  | _ :: _, [], _, h, _ => by simp at h
+  | c :: cs, b :: bs, i, hlen, h => by
+    have h0 := h 0 c b (by simp) (by simp)
+    simp only [Nat.add_zero] at h0
+    simp only [chunksGo, ne_eq, ite_not, h0.1, if_true, h0.2]
+    apply chunksGo_complete comb count hashes cs bs (i + 1) (by simpa using hlen)
+    intro k c' b' hc' hb'
+    have := h (k + 1) c' b' (by simpa using hc') (by simpa using hb')
+    rwa [show i + (k + 1) = i + 1 + k by omega] at this
+
+/-- the box the SDK writes for leaf `i` (`create_merkle_map_for_mdat_box`: `location: i`,
+`hashes` present only when the generated proof is not empty) -/
+def honestBox (comb : α → α → α) (leaves : List α) (d i : Nat) : Box α :=
+  { location := i
+    hashes := if (proofGo (genTree comb leaves) i d).isEmpty then none
+      else some (proofGo (genTree comb leaves) i d) }
+
+/-- **The honest stream verifies** (one mdat box, any stored row, any combining function): the
+committed chunks in order with the boxes the SDK writes are accepted. -/
+theorem honest_stream_accepted [DecidableEq α] (comb : α → α → α) (leaves : List α)
+    (d lid : Nat) :
+    validateMdatsUuid comb [⟨lid, leaves.length, rowAt comb leaves d, leaves⟩]
+      ((List.range leaves.length).map (honestBox comb leaves d)) = true := by
+  have hsplit : splitBoxes [(⟨lid, leaves.length, rowAt comb leaves d, leaves⟩ : Mdat α)]
+      ((List.range leaves.length).map (honestBox comb leaves d)) []
+      = some [(lid, (List.range leaves.length).map (honestBox comb leaves d))] := by
+    have ht : ((List.range leaves.length).map (honestBox comb leaves d)).take leaves.length
+        = (List.range leaves.length).map (honestBox comb leaves d) :=
+      List.take_of_length_le (by simp)
+    simp [splitBoxes, mapInsert, ht]
+  simp only [validateMdatsUuid, hsplit, List.length_cons, List.length_nil, ne_eq,
+    not_true_eq_false, if_false, List.all_cons, List.all_nil, Bool.and_true]
+  simp only [List.lookup, beq_self_eq_true, validateGroup, List.length_map, List.length_range,
+    ne_eq, not_true_eq_false, if_false]
+  apply chunksGo_complete comb _ _ leaves _ 0 (by simp)
+  intro k c b hc hb
+  have hk : k < leaves.length := by
+    rcases List.getElem?_eq_some_iff.mp hc with ⟨h, _⟩; exact h
+  have hb' : b = honestBox comb leaves d k := by
+    simp [hk] at hb
+    exact hb.symm
+  have hc' : c = leaves[k] := by
+    rcases List.getElem?_eq_some_iff.mp hc with ⟨_, h⟩; exact h.symm
+  subst hb' hc'
+  simp only [Nat.zero_add]
+  exact ⟨rfl, wire_proof_verifies comb leaves k d hk⟩
+
+/-! #### the defect of the unrepaired loop: `location` free ⇒ every rearrangement accepted -/
+
+theorem chunksGoPre_complete [DecidableEq α] (comb : α → α → α) (count : Nat) (hashes : List α) :
+    ∀ (ps : List (α × Box α)),
+      (∀ p ∈ ps, checkMerkleTree comb count hashes p.1 p.2.location p.2.hashes = true) →
+      chunksGoPre comb count hashes (ps.map Prod.fst) (ps.map Prod.snd) = true
+  | [], _ => by simp [chunksGoPre]
+  | p :: ps, h => by
+    simp only [List.map_cons, chunksGoPre, h p List.mem_cons_self, if_true]
+    exact chunksGoPre_complete comb count hashes ps fun q hq => h q (List.mem_cons_of_mem _ hq)
+
+/-- **Before the repair**: take *any* sequence `js` of leaf indices (repetitions allowed, any
+order, any length); put at position `k` the committed chunk `js[k]` together with the box the
+SDK wrote for leaf `js[k]`.  The unrepaired loop accepted it, for every combining function —
+nothing tied a chunk to its position. -/
+theorem pre_fix_every_rearrangement_accepted [DecidableEq α] (comb : α → α → α)
+    (leaves : List α) (d lid : Nat) (js : List (Fin leaves.length)) :
+    validateGroupPre comb
+      ⟨lid, leaves.length, rowAt comb leaves d, js.map fun j => leaves[j.val]⟩
+      (js.map fun j => honestBox comb leaves d j.val) = true := by
+  simp only [validateGroupPre, List.length_map, ne_eq, not_true_eq_false, if_false]
+  have := chunksGoPre_complete comb leaves.length (rowAt comb leaves d)
+    (js.map fun j => (leaves[j.val], honestBox comb leaves d j.val))
+    (by
+      intro p hp
+      obtain ⟨j, _, rfl⟩ := List.mem_map.mp hp
+      exact wire_proof_verifies comb leaves j.val d j.isLt)
+  simpa [List.map_map, Function.comp_def] using this
+
+/-- The placement clause about the loop **before** the repair. -/
+def PreFixPlacementSound : Prop :=
+  ∀ (leaves chunks : List Dig) (d : Nat) (group : List (Box Dig)),
+    group.length = leaves.length →
+    validateGroupPre Dig.comb ⟨0, leaves.length, rowAt Dig.comb leaves d, chunks⟩ group = true →
+      chunks = leaves
+
+/-- It was false, even in the free algebra (no collisions): three chunks, root row stored, all
+three positions filled with chunk 0 and its box — accepted. -/
+theorem pre_fix_placement_unsound : ¬ PreFixPlacementSound := by
+  intro h
+  have := h [.leaf 0, .leaf 1, .leaf 2] [.leaf 0, .leaf 0, .leaf 0] 2
+    [⟨0, some [.leaf 1, .leaf 2]⟩, ⟨0, some [.leaf 1, .leaf 2]⟩, ⟨0, some [.leaf 1, .leaf 2]⟩]
+    rfl (by decide +kernel)
+  exact absurd this (by decide)
+
+/-- The repaired validator rejects that witness (and the swap of two chunks with their boxes). -/
+theorem fixed_rejects_placement_witness :
+    validateMdatsUuid Dig.comb
+      [⟨0, 3, rowAt Dig.comb [.leaf 0, .leaf 1, .leaf 2] 2, [.leaf 0, .leaf 0, .leaf 0]⟩]
+      [⟨0, some [.leaf 1, .leaf 2]⟩, ⟨0, some [.leaf 1, .leaf 2]⟩, ⟨0, some [.leaf 1, .leaf 2]⟩]
+      = false
+    ∧ validateMdatsUuid Dig.comb
+      [⟨0, 2, rowAt Dig.comb [.leaf 0, .leaf 1] 0, [.leaf 1, .leaf 0]⟩]
+      [⟨1, none⟩, ⟨0, none⟩] = false := by
+  constructor <;> decide +kernel
+
+-- non-vacuity of `accepted_mdats_chunks_are_committed`: an accepted two-mdat stream whose
+-- MerkleMaps have the local ids 17 and 12 (rows 1 and 0), boxes in file order
+example :
+    validateMdatsUuid Dig.comb
+      [⟨17, 2, rowAt Dig.comb [.leaf 0, .leaf 1] 1, [.leaf 0, .leaf 1]⟩,
+       ⟨12, 2, rowAt Dig.comb [.leaf 1000, .leaf 1001] 0, [.leaf 1000, .leaf 1001]⟩]
+      [⟨0, some [.leaf 1]⟩, ⟨1, some [.leaf 0]⟩, ⟨0, none⟩, ⟨1, none⟩] = true := by
+  decide +kernel
+
+-- two MerkleMaps with the same local id: the second group overwrites the first, rejected
+example :
+    validateMdatsUuid Dig.comb
+      [⟨5, 1, [.leaf 0], [.leaf 0]⟩, ⟨5, 1, [.leaf 0], [.leaf 0]⟩]
+      [⟨0, none⟩, ⟨0, none⟩] = false := by
+  decide +kernel
 
 /-! ### the free algebra instance and non-vacuity -/
 
